@@ -312,7 +312,14 @@ def run(ck: Checker):
         probs.append(f'the read-only Connection is opened on {opened(rfun[0])}')
     for meth, conn in (('send', 'self._writer'), ('send_bytes', 'self._writer'), ('recv', 'self._get_reader()'), ('recv_bytes', 'self._get_reader()')):
         g = base.method(meth)
+        gsc = Scope(g)
         calls = [n for n in walk_shallow_func(g.node) if isinstance(n, ast.Call) and method_of(n)[1] == meth]
-        if not calls or norm_text(method_of(calls[0])[0]) != conn:
+        recv_txt = (gsc.canon(method_of(calls[0])[0]) or norm_text(method_of(calls[0])[0])) if calls else None
+        if isinstance(method_of(calls[0])[0], ast.Name) and calls and method_of(calls[0])[0].id in gsc.assign_counts:
+            # a local bound once from a call (`r = self._get_reader()`): resolve through its definition
+            d_ = [k for k in walk_shallow_func(g.node) if isinstance(k, ast.Assign) and is_name(k.targets[0], method_of(calls[0])[0].id)]
+            if len(d_) == 1 and dotted(d_[0].value) is None:
+                recv_txt = norm_text(d_[0].value)
+        if not calls or recv_txt != conn:
             probs.append(f'{meth} does not delegate to {conn}.{meth}')
     ck.ob('C18-8', init, (base.node.lineno, '_Pipe'), not probs, '; '.join(probs) if probs else 'write-only Connection on wpath, read-only Connection on rpath; send*/recv* delegate to them unchanged')
